@@ -3,6 +3,7 @@ CONSTANTS
   MaxReq = 2
   Pads = {0, 70000}
   NativeArmEmpty = FALSE
+  AllowLateRequest = FALSE
   EmitCases = TRUE
 SPECIFICATION Spec
 INVARIANTS NoSilentDrop Emit
